@@ -46,6 +46,14 @@ def setup(checker_name):
         I.gen_results.append(isinstance(np.zeros((n,), np.float32), A))
         yield 0
 
+    import dataclasses
+
+    @jaxtyped(typechecker=tc)
+    @dataclasses.dataclass
+    class DC:
+        n: int
+        x: A
+    I.DC = DC
     I.funcs = {"new": jaxtyped(typechecker=tc)(body), "old": jaxtyped(tc(body)),
                "none": jaxtyped(typechecker=None)(body_none)}
     I.gens = {"new": jaxtyped(typechecker=tc)(gen), "none": jaxtyped(typechecker=None)(gen_none)}
@@ -121,6 +129,23 @@ class Interp:
                 next(g)
                 g.close()
                 self.observe("T" if self.gen_results[n0] else "F")
+            elif op == "makedc":
+                self.DC(a["k"], np.zeros((a["k"],), np.float32))
+                self.observe("constructed")
+            elif op == "baddc":
+                c = a["catches"]
+                if c == "no":
+                    self.pending = "rejected"
+                    self.DC(1, np.zeros((2, 2), np.float32))
+                    self.observe("constructed")
+                else:
+                    try:
+                        self.pending = "rejected-caught"
+                        self.DC(1, np.zeros((2, 2), np.float32))
+                        self.observe("constructed")
+                    except (Exception if c == "exc" else BaseException):
+                        self.observe(self.pending)
+                        self.pending = None
             elif op == "enterctx":
                 with self.jaxtyped("context"):
                     explicit = self.enter_body()
